@@ -30,7 +30,9 @@ def main():
     ctor = {q: [list(x) for x in statecheck.ctor_param_table(cd)] for q, cd in sorted(raw.classes.items())}
     ctor = {q: v for q, v in ctor.items() if v}
     with open(os.path.join(VERIF, "sa", "known_attrs.json"), "w") as fh:
-        json.dump({"classes": classes, "modules": modules, "ctor": ctor}, fh, indent=0, sort_keys=True)
+        functions = sorted(["%s.%s" % (q, m.name) for q, cd in raw.classes.items() for m in statecheck.methods_of(cd)] +
+                           ["%s.%s" % (m, st.name) for m, tree in raw.trees.items() for st in tree.body if isinstance(st, ast.FunctionDef)])
+        json.dump({"classes": classes, "modules": modules, "ctor": ctor, "functions": functions}, fh, indent=0, sort_keys=True)
     print("%d constructor argument -> attribute pairs" % sum(len(v) for v in ctor.values()))
     print("%d classes, %d attributes" % (len(classes), sum(len(v) for v in classes.values())))
 
